@@ -197,6 +197,8 @@ package mast
 //@ smt (define-fun LinksOK ((h Heap) (r Int)) Bool (forall ((i Int)) (! (=> (and (<= 0 i) (< i (nlinks h r))) (and (LinkOK (LinkAt h r i)) (=> (isPtr (LinkAt h r i)) (Shape h (a.val (LinkAt h r i)))))) :pattern ((LinkAt h r i)))))
 //@ smt (define-fun AllOK ((h Heap)) Bool (forall ((r Int)) (! (=> (Shape h r) (LinksOK h r)) :pattern ((Node.Link h r)))))
 //@ smt (define-fun MastCfg ((h Heap) (m Int)) Bool (and (> m 0) (>= (Mast.branchFactor h m) 2) (< (Mast.branchFactor h m) 1073741824) (not (= (Mast.keyOrder h m) 0)) (not (= (Mast.keyLayer h m) 0)) (RootOK h m) (=> (isPtr (Mast.root h m)) (Shape h (a.val (Mast.root h m))))))
+// Sorted: the keys of a node are strictly ascending (adjacent form)
+//@ smt (define-fun Sorted ((h Heap) (r Int)) Bool (forall ((j Int)) (! (=> (and (< 0 j) (< j (nkeys h r))) (< (ord (KeyAt h r (- j 1)) (KeyAt h r j)) 0)) :pattern ((KeyAt h r j)))))
 // OldSame: nothing that existed at watermark w has changed between h0 and h (nodes, flags, array contents)
 //@ smt (define-fun NodeSame ((h0 Heap) (h Heap) (r Int)) Bool (and (= (Node.Key h r) (Node.Key h0 r)) (= (Node.Value h r) (Node.Value h0 r)) (= (Node.Link h r) (Node.Link h0 r)) (= (mastNode.dirty h r) (mastNode.dirty h0 r)) (= (mastNode.shared h r) (mastNode.shared h0 r)) (= (mastNode.source h r) (mastNode.source h0 r)) (= (mastNode.expected h r) (mastNode.expected h0 r))))
 
@@ -209,6 +211,7 @@ package mast
 //@ requires nn (and (> node 0) (> mast 0) (not (= (Mast.keyOrder H mast) 0)))
 //@ requires shape [C01] (Shape H node)
 //@ requires sorted2 [C01] (=> (>= (nkeys H node) 2) (< (ord (KeyAt H node 0) (KeyAt H node 1)) 0))
+//@ loop 1 invariant nonneg (>= i 0)
 
 //@ func (*mastNode).ToMut
 //@ tags C01 C02 C11
@@ -266,3 +269,68 @@ package mast
 //@ ensures loads (and (>= (G.loads H) (G.loads H0)) (<= (G.loads H) (+ (G.loads H0) 1)))
 //@ ensures closure (=> (AllOK H0) (AllOK H))
 //@ ensures healthy (=> healthy (= err anil))
+
+// ---------------------------------------------------------------------------------------
+// Search
+
+//@ func (*mastNode).dump
+//@ trusted
+//@ pure
+
+//@ smt (define-fun pathAt ((h Heap) (p Slice) (j Int)) S_pathEntry (Arr.S_pathEntry.at h (sl.arr p) (+ (sl.off p) j)))
+// PathOK: every entry of a search path names a node-shaped node and a valid link index in it
+//@ smt (define-fun PathOK ((h Heap) (p Slice)) Bool (forall ((j Int)) (! (=> (and (<= 0 j) (< j (sl.len p))) (and (> (S_pathEntry.node (pathAt h p j)) 0) (Shape h (S_pathEntry.node (pathAt h p j))) (<= 0 (S_pathEntry.linkIndex (pathAt h p j))) (< (S_pathEntry.linkIndex (pathAt h p j)) (nlinks h (S_pathEntry.node (pathAt h p j)))))) :pattern ((pathAt h p j)))))
+
+//@ func (*mastNode).findNode$1
+//@ tags C01 C10
+//@ uses ord
+//@ modifies W Box.Any Box.Int Arr.Any@fresh
+//@ requires idx (and (<= 0 i) (< i (nkeys H (Box.Int H node))))
+//@ requires nn (and (> (Box.Int H m) 0) (> (Box.Int H node) 0) (not (= (Mast.keyOrder H (Box.Int H m)) 0)))
+//@ requires boxes (and (distinct cmp m node) (distinct err key) (<= err W) (<= cmp W) (<= m W) (<= node W) (<= key W))
+//@ ensures sticky (=> (isErr (Box.Any H0 err)) (and result (= (Box.Any H err) (Box.Any H0 err)) (= (Box.Int H cmp) (Box.Int H0 cmp))))
+//@ ensures clean (=> (and (not (isErr (Box.Any H0 err))) (not (isErr (Box.Any H err)))) (and (= (Box.Int H cmp) (ord (Box.Any H0 key) (KeyAt H0 (Box.Int H0 node) i))) (= result (<= (Box.Int H cmp) 0))))
+//@ ensures fail (=> (and (not (isErr (Box.Any H0 err))) (isErr (Box.Any H err))) result)
+//@ ensures frameAny (forall ((b Int)) (! (=> (and (<= b W0) (not (= b err))) (= (Box.Any H b) (Box.Any H0 b))) :pattern ((Box.Any H b))))
+//@ ensures frameInt (forall ((b Int)) (! (=> (and (<= b W0) (not (= b cmp))) (= (Box.Int H b) (Box.Int H0 b))) :pattern ((Box.Int H b))))
+//@ ensures healthy (=> (and healthy (not (isErr (Box.Any H0 err)))) (not (isErr (Box.Any H err))))
+
+//@ assumption A2-search: sort.Search(n, f) returns the least index in [0,n] at which the calls it made to f returned true after returning false just below; instantiated with the verified contract of the closure (findNode$1 / search1$1) this gives the adjacent lower-bound facts stated in the call-site contracts
+//@ abstract sort.Search@(*mastNode).findNode (n f) -> (r)
+//@ modifies W Box.Any Box.Int Arr.Any@fresh
+//@ requires clean (not (isErr (Box.Any H err&)))
+//@ requires range (and (<= 0 n) (<= n (nkeys H node)))
+//@ ensures range (and (<= 0 r) (<= r n))
+//@ ensures lb (=> (not (isErr (Box.Any H err&))) (and (=> (< r n) (<= (ord key (KeyAt H0 node r)) 0)) (=> (> r 0) (> (ord key (KeyAt H0 node (- r 1))) 0))))
+//@ ensures frameAny (forall ((b Int)) (! (=> (and (<= b W0) (not (= b err&))) (= (Box.Any H b) (Box.Any H0 b))) :pattern ((Box.Any H b))))
+//@ ensures frameInt (forall ((b Int)) (! (=> (and (<= b W0) (not (= b cmp&))) (= (Box.Int H b) (Box.Int H0 b))) :pattern ((Box.Int H b))))
+//@ ensures healthy (=> healthy (not (isErr (Box.Any H err&))))
+//@ ensures none (=> (= n 0) (and (= r 0) (= (Box.Int H cmp&) (Box.Int H0 cmp&)) (= (Box.Any H err&) (Box.Any H0 err&))))
+//@ ensures last (=> (and (not (isErr (Box.Any H err&))) (> n 0) (<= (Box.Int H cmp&) 0)) (and (< r n) (= (Box.Int H cmp&) (ord key (KeyAt H0 node r)))))
+
+//@ func (*mastNode).findNode
+//@ tags C01 C02 C10 C11 C12 C16
+//@ uses ord
+//@ modifies W G.loads Box.Any@fresh Box.Int@fresh Box.Bytes@fresh findOptions.path findOptions.currentHeight Arr.S_pathEntry Arr.Any@fresh Node.*@fresh mastNode.*@fresh
+//@ requires nn (and (> node 0) (> m 0) (> options 0) (not (= (Mast.keyOrder H m) 0)))
+//@ requires shape [C01] (and (Shape H node) (AllOK H))
+//@ requires height [C01 C10] (>= (findOptions.currentHeight H options) (findOptions.targetLayer H options))
+//@ requires pathok [C01 C10] (PathOK H (findOptions.path H options))
+//@ ensures res [C01 C10] (=> (= err anil) (and (> result0 0) (Shape H result0) (<= 0 result1) (<= result1 (nkeys H result0))))
+//@ ensures fail (=> (isErr err) (= result0 0))
+//@ ensures landed [C01 C10] (=> (and (= err anil) healthy) (or (= (findOptions.currentHeight H options) (findOptions.targetLayer H options)) (and (< result1 (nkeys H result0)) (= (ord key (KeyAt H result0 result1)) 0))))
+//@ ensures lb [C01 C10] (=> (and (= err anil) healthy (Sorted H result0)) (and (=> (< result1 (nkeys H result0)) (<= (ord key (KeyAt H result0 result1)) 0)) (=> (> result1 0) (> (ord key (KeyAt H result0 (- result1 1))) 0))))
+//@ ensures path [C01 C10] (=> (= err anil) (and (>= (sl.len (findOptions.path H options)) (+ (sl.len (findOptions.path H0 options)) 1)) (= (pathAt H (findOptions.path H options) (- (sl.len (findOptions.path H options)) 1)) (mk_S_pathEntry result0 result1))))
+//@ ensures pathok [C01 C10] (=> (= err anil) (PathOK H (findOptions.path H options)))
+//@ ensures height [C01 C16] (and (<= (findOptions.currentHeight H options) (findOptions.currentHeight H0 options)) (>= (findOptions.currentHeight H options) (findOptions.targetLayer H options)))
+//@ ensures loads [C16] (and (>= (G.loads H) (G.loads H0)) (<= (- (G.loads H) (G.loads H0)) (- (findOptions.currentHeight H0 options) (findOptions.currentHeight H options))))
+//@ ensures closure (AllOK H)
+//@ ensures healthy [C01] (=> healthy (= err anil))
+
+// ---------------------------------------------------------------------------------------
+// Trusted standard-library contracts (A2)
+//@ assumption A2: reflect.DeepEqual is a pure total function (uninterpreted deepEq) that never panics
+
+//@ abstract reflect.DeepEqual (a b) -> (r)
+//@ pure
+//@ ensures def (= r (deepEq a b))
